@@ -37,6 +37,10 @@ type Modules struct {
 	// converted nodes. To access the map, use the get/set/ClearEntryCache()
 	// thread-safe functions.
 	entryCache map[Node]*Entry
+	// entryInProgress holds the nodes whose conversion by ToEntry has
+	// started but not finished; meeting one of them again means that a
+	// grouping uses itself. It is protected by entryCacheMu.
+	entryInProgress map[Node]bool
 	// mergedSubmodule is used to prevent re-parsing a submodule that has already
 	// been merged into a particular entity when circular dependencies are being
 	// ignored. The keys of the map are a string that is formed by concatenating
@@ -469,6 +473,22 @@ func (ms *Modules) setEntryCache(n Node, e *Entry) {
 	ms.entryCacheMu.Lock()
 	defer ms.entryCacheMu.Unlock()
 	ms.entryCache[n] = e
+	delete(ms.entryInProgress, n)
+}
+
+// startEntry notes that the conversion of n has started.  It returns false if
+// it had already been started and is not finished yet.
+func (ms *Modules) startEntry(n Node) bool {
+	ms.entryCacheMu.Lock()
+	defer ms.entryCacheMu.Unlock()
+	if ms.entryInProgress[n] {
+		return false
+	}
+	if ms.entryInProgress == nil {
+		ms.entryInProgress = map[Node]bool{}
+	}
+	ms.entryInProgress[n] = true
+	return true
 }
 
 // ClearEntryCache clears the entryCache containing previously converted nodes
@@ -477,4 +497,5 @@ func (ms *Modules) ClearEntryCache() {
 	ms.entryCacheMu.Lock()
 	defer ms.entryCacheMu.Unlock()
 	ms.entryCache = map[Node]*Entry{}
+	ms.entryInProgress = map[Node]bool{}
 }
